@@ -55,6 +55,7 @@ pub fn run_case(c: &Value) -> Value {
                     "topic": pl.user_can_send_state(a, StateEventType::RoomTopic),
                     "topicmsg": pl.user_can_send_message(a, MessageLikeEventType::from("m.room.topic")),
                     "tpi": pl.user_can_send_state(a, StateEventType::RoomThirdPartyInvite),
+                    "aliases": pl.user_can_send_state(a, StateEventType::RoomAliases),
                     "notif": pl.user_can_trigger_room_notification(a),
                     "la": i64::from(pl.for_user(a)), "lb": i64::from(pl.for_user(b)),
                 });
@@ -96,6 +97,8 @@ pub fn run_case(c: &Value) -> Value {
                                "auth": ["$create"], "roomserver": "s1", "idserver": "s1", "c": {"none": true}})),
             ("a_topicmsg", json!({"id": "$e", "type": "m.room.topic", "sender": "@a:s1", "haskey": false, "key": "", "prev": ["$p"],
                                   "auth": ["$create"], "roomserver": "s1", "idserver": "s1", "c": {"none": true}})),
+            ("a_aliases", json!({"id": "$e", "type": "m.room.aliases", "sender": "@a:s1", "haskey": true, "key": "s1", "prev": ["$p"],
+                                 "auth": ["$create"], "roomserver": "s1", "idserver": "s1", "c": {"none": true}})),
             ("a_tpi", json!({"id": "$e", "type": "m.room.third_party_invite", "sender": "@a:s1", "haskey": true, "key": "tok9", "prev": ["$p"],
                              "auth": ["$create"], "roomserver": "s1", "idserver": "s1", "c": {"none": true}})),
         ];
